@@ -28,6 +28,12 @@ def shapes():
             for a12 in itertools.product(CLS, repeat=2):
                 out.append({"b": list(b), "a": [a0] + list(a12)})
     out += pairwise(5, 5)
+    # rational coefficients whose text is not atomic (Fraction formats as "3/2"): orders <= 1
+    for b in itertools.product(["0", "1", "c", "q"], repeat=2):
+        for a0 in ["1", "c", "q"]:
+            for a1 in ["0", "m1", "c", "q"]:
+                if "q" in b or a0 == "q" or a1 == "q":
+                    out.append({"b": list(b), "a": [a0, a1]})
     for d in (8, 16):
         for c in ("c", "1", "m1"):
             out.append({"b": ["0"] * d + [c], "a": ["c"]})
@@ -85,7 +91,7 @@ def capture(repo, shape_list, tool="filters.py"):
 
 
 def coef_expr(cls, name):
-    return {"0": "0", "1": "1", "m1": "(-1)", "c": name, "s": name[2:] + "[k]"}[cls]
+    return {"0": "0", "1": "1", "m1": "(-1)", "c": name, "s": name[2:] + "[k]", "q": "(%sn / %sd)" % (name, name)}[cls]
 
 
 X = SpecLambda("lambda i: ite(i >= 0, seq[i], zero)")
@@ -130,12 +136,14 @@ def contract_for(item):
         inv.append(("C:%s-position" % nm, "pos(%s) == nout" % nm))
     globs = {}
     req = ["len(memory) == %d" % (item["memory_len"])]
-    for k, c in enumerate(b):
-        if c == "c":
-            globs["c_b%d" % k] = z3.Real("c_b%d" % k)
-    for k, c in enumerate(a):
-        if c == "c":
-            globs["c_a%d" % k] = z3.Real("c_a%d" % k)
+    for pre, vec in (("c_b", b), ("c_a", a)):
+        for k, c in enumerate(vec):
+            if c == "c":
+                globs["%s%d" % (pre, k)] = z3.Real("%s%d" % (pre, k))
+            if c == "q":
+                globs["%s%dn" % (pre, k)] = z3.Real("%s%dn" % (pre, k))
+                globs["%s%dd" % (pre, k)] = z3.Real("%s%dd" % (pre, k))
+                req.append("%s%dd != 0 and %s%dn != 0" % (pre, k, pre, k))
     if a[0] == "c":
         req.append("c_a0 != 0")
     tag = "b=(%s),a=(%s)" % (",".join(b), ",".join(a))
